@@ -2,7 +2,7 @@
 fork()-based explicit-state DFS over the real store.c (white-box digest of its page map, free lists and free tree,
 state matching through a shared visited table), plus one long deterministic history that executes every operation
 triple in turn.  Oracle: reference model of live blocks (alignment, size, disjointness, fill patterns, resize prefix,
-object code, rooted blocks survive collection) and stoAudit() after every step."""
+object code; blocks reachable from a root directly, through an interior pointer, or through a chain of heap blocks survive collection) and stoAudit() after every step."""
 import os, re, sys, struct
 from vlib.common import Check, run, pmap, NCPU, VERIF
 from vlib import cmodel
@@ -10,10 +10,10 @@ from vlib import cmodel
 PID = 'C10'
 # (depth, maxslots, seeds)
 PLAN = {
-    'quick': {'dfs': [(3, 3, [0, 1, 2, 3])], 'walk': [(900000, 3, 0), (900000, 4, 1)]},
-    'thorough': {'dfs': [(4, 3, [0, 1, 2, 3]), (3, 4, [0, 1, 2, 3])], 'walk': [(3000000, 3, 0), (3000000, 4, 1), (3000000, 4, 2), (3000000, 5, 3)]},
+    'quick': {'dfs': [(3, 3, [0, 1, 2, 3])], 'walk': [(300000, 3, 0), (300000, 4, 1), (300000, 5, 2), (300000, 4, 3)]},
+    'thorough': {'dfs': [(4, 3, [0, 1, 2, 3]), (3, 4, [0, 1, 2, 3])], 'walk': [(2500000, 3, 0), (2500000, 4, 1), (2500000, 4, 2), (2500000, 5, 3), (2500000, 6, 1), (2500000, 5, 0)]},
 }
-OPDOC = '0-11 alloc rooted size k; 12-23 alloc dropped size k; 24-29 free slot; 30-101 resize slot i to size k; 102 gc; 103-108 recode slot i; sizes=1,8,9,24,25,256,257,264,4000,4096,5000,70000'
+OPDOC = '0-11 alloc rooted size k; 12-23 alloc dropped size k; 24-29 free slot; 30-101 resize slot i to size k; 102 gc; 103-108 recode slot i; 109-180 alloc size k reachable only through the first word of slot i; 181-186 replace the root of slot i by an interior pointer; sizes=1,8,9,24,25,256,257,264,4000,4096,5000,70000'
 
 
 def main(tier):
@@ -128,7 +128,7 @@ def main(tier):
         'samples': [{'ops': [5, 102, 36], 'meaning': 'alloc rooted 256 bytes; gc; resize slot 0 to 257 bytes (first mixed size)', 'alphabet': OPDOC}],
     })
     ck.assumptions += ['conservative collector: dropped blocks are never required to be reclaimed',
-                       'the harness keeps rooted pointers in a static array (scanned as roots) and hides dropped ones by xor']
+                       'the harness keeps rooted pointers in a static array (scanned as roots), hides all other copies by xor, and zeroes the dead stack before each collection so that only the model keeps blocks alive']
     ck.finish()
 
 
